@@ -1,4 +1,5 @@
 import SafeNet.Proofs.ValidateData
+import SafeNet.Proofs.ValidateStore
 /-!
 # C07 — mutable records never regress and hold only owner-signed content
 
@@ -313,25 +314,11 @@ theorem register_grows (d : Delivery) (s : Store) (k : Nat) (alt alt' : Bool) (l
 
 /-! ## Serial histories: the `_partial` theorems (hypothesis: per-key serialisation) -/
 
-theorem get_put_same (s : Store) (k : Nat) (c : Content) : (s.put k c).get k = some c := by
-  induction s with
-  | nil => simp [Store.put, Store.get]
-  | cons e rest ih =>
-    obtain ⟨k', c'⟩ := e
-    unfold Store.put
-    split
-    · simp [Store.get]
-    · rename_i h; simp [Store.get, h, ih]
+theorem get_put_same (s : Store) (k : Nat) (c : Content) : (s.put k c).get k = some c :=
+  ValidateStore.get_put_same s k c
 
-theorem get_put_ne (s : Store) (k k' : Nat) (c : Content) (h : k' ≠ k) : (s.put k' c).get k = s.get k := by
-  induction s with
-  | nil => simp [Store.put, Store.get, h]
-  | cons e rest ih =>
-    obtain ⟨k2, c2⟩ := e
-    unfold Store.put
-    split
-    · rename_i h2; subst h2; simp [Store.get, h]
-    · simp [Store.get, ih]
+theorem get_put_ne (s : Store) (k k' : Nat) (c : Content) (h : k' ≠ k) : (s.put k' c).get k = s.get k :=
+  ValidateStore.get_put_ne s k k' c h
 
 /-- after applying a trace, a key holds what it held before or the content of some put for it in the trace -/
 theorem applyToks_get (toks : List Tok) (s : Store) (k : Nat) :
@@ -654,6 +641,942 @@ theorem no_transaction_lost_is_false : ¬ NoTransactionLostUnderAnySchedule := b
   rw [localTxs, concurrent_tx_loss_witness.2] at this
   simp at this
 
+/-! ## Registers and scratchpads: the history-level statements (sequential) -/
+
+/-- a put over a held register is a register of the same base containing every held op -/
+theorem put_over_reg (d : Delivery) (s : Store) (k : Nat) (alt : Bool) (l : List Nat) (c : Content)
+    (hheld : s.get k = some (.reg alt l)) (hW : Tok.W k c ∈ (validate d s).2) :
+    ∃ l', c = .reg alt l' ∧ ∀ x ∈ l, x ∈ l' := by
+  have hW' := hW
+  rw [validate_trace] at hW
+  obtain ⟨hk, hw, hwr⟩ := W_mem_inv hW
+  subst hk
+  have hh := imp_of_bool (tbl_put_over_held_same_kind d.client d.kind (obsOfAns d (seqAns d s)))
+    (and2 hw (held_seq hheld))
+  simp only [Bool.and_eq_true] at hh
+  rcases lOk_same_kind (by rw [seq_g, hheld]) hh.2 with ⟨_, _, _, _, _, _, h⟩ | ⟨_, _, _, h⟩ | ⟨id, b, ops, _, _, hc, _⟩
+  · cases h
+  · cases h
+  · have hcw : ∃ a' l', c = .reg a' l' := by
+      rcases hwr with ⟨_, h⟩ | ⟨_, h⟩
+      · rw [h]; simp only [written, hc]; exact ⟨_, _, rfl⟩
+      · rw [h]; simp only [written, hc, seq_g, hheld, Option.getD_some]; exact ⟨_, _, rfl⟩
+    obtain ⟨a', l', rfl⟩ := hcw
+    obtain ⟨ha, hm, _⟩ := register_grows d s _ alt a' l l' hheld hW'
+    subst ha
+    exact ⟨l', rfl, fun x hx => (hm x).mpr (Or.inl hx)⟩
+
+theorem deliverSeq_reg_monotone (d : Delivery) (s : Store) (k : Nat) (alt : Bool) (l : List Nat)
+    (hheld : s.get k = some (.reg alt l)) :
+    ∃ l', (deliverSeq s d).get k = some (.reg alt l') ∧ ∀ x ∈ l, x ∈ l' := by
+  unfold deliverSeq
+  rcases applyToks_get (validate d s).2 s k with h | ⟨c, hm, hg⟩
+  · exact ⟨l, by rw [h, hheld], fun x hx => hx⟩
+  · obtain ⟨l', rfl, hsub⟩ := put_over_reg d s k alt l c hheld hm
+    exact ⟨l', hg, hsub⟩
+
+/-- **Under per-key serialisation a stored register operation is never lost and the base register never
+changes**, whatever else is delivered (any kinds, any paths, valid or not). -/
+theorem serial_register_never_lost_partial (ds : List Delivery) (s : Store) (k : Nat) (alt : Bool) (l : List Nat)
+    (hheld : s.get k = some (.reg alt l)) :
+    ∃ l', (runSerial s ds).get k = some (.reg alt l') ∧ ∀ x ∈ l, x ∈ l' := by
+  induction ds generalizing s l with
+  | nil => exact ⟨l, hheld, fun x hx => hx⟩
+  | cons d rest ih =>
+    obtain ⟨l1, hg1, h1⟩ := deliverSeq_reg_monotone d s k alt l hheld
+    obtain ⟨l2, hg2, h2⟩ := ih (deliverSeq s d) l1 hg1
+    exact ⟨l2, hg2, fun x hx => h2 x (h1 x hx)⟩
+
+/-- a replicated copy of register `id` with base `b` and operations `ops` -/
+def regVec (id : Nat) (b : RegBase) (ops : List OpD) : Delivery := ⟨false, .reg, 3 * id + 2, .reg id b ops, none⟩
+
+/-- does a delivered copy verify against a held register of base `alt`: owner signature on the base register,
+every operation permitted, same base register -/
+def accepts (alt : Bool) (b : RegBase) (ops : List OpD) : Bool :=
+  decide (b ≠ .bad) && ops.all (fun o => opValid (regAlt b) o.cls) && (alt == regAlt b)
+
+/-- the operations a delivered register contributes to a held register of base `alt`: all of them if it verifies,
+none otherwise — a register is accepted as a whole or not at all -/
+def accOps (alt : Bool) (b : RegBase) (ops : List OpD) : List Nat :=
+  if accepts alt b ops then ops.map (·.id) else []
+
+theorem any_new_false_iff (a l : List Nat) : (a.any fun x => !l.contains x) = false ↔ ∀ x ∈ a, x ∈ l := by
+  simp [List.any_eq_false]
+
+theorem obs_reg {d : Delivery} {a : Ans} {id : Nat} {b : RegBase} {ops : List OpD} (hc : d.content = .reg id b ops)
+    {alt : Bool} {l0 : List Nat} (hg : a.g = some (some (.reg alt l0))) :
+    (obsOfAns d a).lSome = true ∧ (obsOfAns d a).lOk = true ∧
+    (obsOfAns d a).cA = (decide (b ≠ .bad) && ops.all (fun o => opValid (regAlt b) o.cls)) ∧
+    (obsOfAns d a).cB = (alt == regAlt b) ∧
+    (obsOfAns d a).cC = ops.any (fun o => !l0.contains o.id) := by
+  obtain ⟨client, kind, rk, content, pay⟩ := d
+  simp only at hc
+  subst hc
+  simp [obsOfAns, hg]
+
+theorem rwKey_regVec (id : Nat) (b : RegBase) (ops : List OpD) : rwKey (regVec id b ops) = 3 * id + 2 := by
+  simp [rwKey, regVec, route, replRoute, derivedKey]
+
+/-- the decision on a replicated register copy for a held register, from the facts it depends on -/
+theorem skel_regRepl_held (o : Obs) (hp : o.parse = true) (hkm : o.km = true) (hh2 : o.h2 = true)
+    (hl : o.lSome = true) (hlo : o.lOk = true) :
+    skel .regRepl o =
+      if o.cA && o.cB then (if o.cC then ⟨.ok, [.H, .G, .Wm], []⟩ else ⟨.ok, [.H, .G], []⟩)
+      else if !o.cA then rej .regInvalid [.H] else rej .regDifferentBase [.H, .G] := by
+  have e1 : regVerifies = true := by decide
+  have e2 : regVerifiedMerge = true := by decide
+  have e3 : regReplChecksKey = true := by decide
+  cases hA : o.cA <;> cases hB : o.cB <;> cases hC : o.cC <;>
+    simp [skel, storeReg, rej, hp, hkm, hh2, hl, hlo, hA, hB, hC, e1, e2, e3]
+
+theorem replicated_reg_applied (s : Store) (id : Nat) (b : RegBase) (ops : List OpD) (alt : Bool) (l0 : List Nat)
+    (hheld : s.get (3 * id + 2) = some (.reg alt l0)) :
+    ∃ l1, (deliverSeq s (regVec id b ops)).get (3 * id + 2) = some (.reg alt l1) ∧
+      ∀ x, x ∈ l1 ↔ (x ∈ l0 ∨ x ∈ accOps alt b ops) := by
+  have hrw := rwKey_regVec id b ops
+  have hheld' : s.get (rwKey (regVec id b ops)) = some (.reg alt l0) := by rw [hrw]; exact hheld
+  have hg : (seqAns (regVec id b ops) s).g = some (some (.reg alt l0)) := by rw [seq_g, hheld']
+  obtain ⟨hl, hlo, hcA, hcB, hcC⟩ := obs_reg (d := regVec id b ops) (a := seqAns (regVec id b ops) s) rfl hg
+  have hp : (obsOfAns (regVec id b ops) (seqAns (regVec id b ops) s)).parse = true := by rw [obs_parse]; rfl
+  have hkm : (obsOfAns (regVec id b ops) (seqAns (regVec id b ops) s)).km = true := by
+    rw [obs_km]; simp [regVec, route, replRoute, derivedKey]
+  have hh2 : (obsOfAns (regVec id b ops) (seqAns (regVec id b ops) s)).h2 = true := by
+    rw [obs_h2_seq, hheld']; rfl
+  have hsk := skel_regRepl_held _ hp hkm hh2 hl hlo
+  have hroute : route (regVec id b ops).client (regVec id b ops).kind = .regRepl := rfl
+  have hacc : accepts alt b ops =
+      ((obsOfAns (regVec id b ops) (seqAns (regVec id b ops) s)).cA &&
+        (obsOfAns (regVec id b ops) (seqAns (regVec id b ops) s)).cB) := by
+    rw [hcA, hcB]; rfl
+  have hval : (validate (regVec id b ops) s).2 =
+      (skel .regRepl (obsOfAns (regVec id b ops) (seqAns (regVec id b ops) s))).trace.map
+        (inst (regVec id b ops) (seqAns (regVec id b ops) s)) := by
+    simp only [validate, hroute]
+  cases hA : accepts alt b ops
+  · -- rejected: nothing is put
+    rw [hA] at hacc
+    refine ⟨l0, ?_, by intro x; simp [accOps, hA]⟩
+    have : (validate (regVec id b ops) s).2 = [.H (3 * id + 2)] ∨
+        (validate (regVec id b ops) s).2 = [.H (3 * id + 2), .G (3 * id + 2)] := by
+      rw [hval, hsk, ← hacc]
+      simp only [Bool.false_eq_true, ↓reduceIte]
+      split
+      · left; simp [rej, Out.trace, inst, hrw]
+      · right; simp [rej, Out.trace, inst, hrw]
+    rcases this with h | h <;> simp [deliverSeq, h, applyToks, hheld]
+  · rw [hA] at hacc
+    cases hC : (obsOfAns (regVec id b ops) (seqAns (regVec id b ops) s)).cC
+    · -- nothing new: no put
+      refine ⟨l0, ?_, ?_⟩
+      · have : (validate (regVec id b ops) s).2 = [.H (3 * id + 2), .G (3 * id + 2)] := by
+          rw [hval, hsk, ← hacc, hC]
+          simp [Out.trace, inst, hrw]
+        simp [deliverSeq, this, applyToks, hheld]
+      · intro x
+        rw [hcC] at hC
+        have hsub : ∀ y ∈ ops.map (·.id), y ∈ l0 :=
+          (any_new_false_iff (ops.map (·.id)) l0).mp (by simpa [List.any_map] using hC)
+        simp only [accOps, hA, ↓reduceIte]
+        constructor
+        · intro h; exact Or.inl h
+        · rintro (h | h)
+          · exact h
+          · exact hsub x h
+    · refine ⟨union (ops.map (·.id)) l0, ?_, ?_⟩
+      · have : (validate (regVec id b ops) s).2 =
+            [.H (3 * id + 2), .G (3 * id + 2), .W (3 * id + 2) (.reg alt (union (ops.map (·.id)) l0))] := by
+          have hc : (regVec id b ops).content = .reg id b ops := rfl
+          have hwr : written (regVec id b ops) (seqAns (regVec id b ops) s) true =
+              .reg alt (union (ops.map (·.id)) l0) := by
+            simp [written, hc, hg]
+          rw [hval, hsk, ← hacc, hC]
+          simp [Out.trace, inst, hrw, hwr]
+        simp [deliverSeq, this, applyToks, get_put_same]
+      · intro x
+        simp only [accOps, hA, ↓reduceIte]
+        rw [mem_union]; constructor <;> (rintro (h | h) <;> simp [h])
+
+/-- **Under per-key serialisation the stored register is the union of what was held and the operations of every
+delivered copy that verifies (owner signature, same base register, every operation permitted)** — membership
+only, hence independent of delivery order and duplication. -/
+theorem register_union_serial (regs : List (RegBase × List OpD)) (s : Store) (id : Nat) (alt : Bool) (l0 : List Nat)
+    (hheld : s.get (3 * id + 2) = some (.reg alt l0)) :
+    ∃ l1, (runSerial s (regs.map fun r => regVec id r.1 r.2)).get (3 * id + 2) = some (.reg alt l1) ∧
+      ∀ x, x ∈ l1 ↔ (x ∈ l0 ∨ ∃ r ∈ regs, x ∈ accOps alt r.1 r.2) := by
+  induction regs generalizing s l0 with
+  | nil => exact ⟨l0, hheld, by simp⟩
+  | cons r rest ih =>
+    obtain ⟨l1, hg1, hm1⟩ := replicated_reg_applied s id r.1 r.2 alt l0 hheld
+    obtain ⟨l2, hg2, hm2⟩ := ih (deliverSeq s (regVec id r.1 r.2)) l1 hg1
+    refine ⟨l2, hg2, ?_⟩
+    intro x
+    rw [hm2, hm1]
+    simp only [List.mem_cons, exists_eq_or_imp]
+    constructor
+    · rintro ((h | h) | h)
+      · exact Or.inl h
+      · exact Or.inr (Or.inl h)
+      · exact Or.inr (Or.inr h)
+    · rintro (h | h | h)
+      · exact Or.inl (Or.inl h)
+      · exact Or.inl (Or.inr h)
+      · exact Or.inr h
+
+/-- two serial histories delivering the same register copies in any order, any number of times, end with the same
+set of operations -/
+theorem register_order_independent (r1 r2 : List (RegBase × List OpD)) (s : Store) (id : Nat) (alt : Bool)
+    (l0 : List Nat) (hheld : s.get (3 * id + 2) = some (.reg alt l0)) (hsame : ∀ r, r ∈ r1 ↔ r ∈ r2) :
+    ∃ a b, (runSerial s (r1.map fun r => regVec id r.1 r.2)).get (3 * id + 2) = some (.reg alt a) ∧
+           (runSerial s (r2.map fun r => regVec id r.1 r.2)).get (3 * id + 2) = some (.reg alt b) ∧
+           ∀ x, x ∈ a ↔ x ∈ b := by
+  obtain ⟨a, ha, hma⟩ := register_union_serial r1 s id alt l0 hheld
+  obtain ⟨b, hb, hmb⟩ := register_union_serial r2 s id alt l0 hheld
+  refine ⟨a, b, ha, hb, ?_⟩
+  intro x
+  rw [hma, hmb]
+  constructor
+  · rintro (h | ⟨r, hr, hx⟩)
+    · exact Or.inl h
+    · exact Or.inr ⟨r, (hsame r).mp hr, hx⟩
+  · rintro (h | ⟨r, hr, hx⟩)
+    · exact Or.inl h
+    · exact Or.inr ⟨r, (hsame r).mpr hr, hx⟩
+
+/-! ## Scratchpads: every path, and keys not held initially -/
+
+/-- a validly signed scratchpad of owner `o`, counter `n`, presented under its own key, on a path that stores it:
+replicated, unpaid client update (accepted only for a key the node holds), or paid client upload whose payment
+passes all six conditions -/
+inductive PadArrives (o n : Nat) : Delivery → Type
+  | repl : PadArrives o n ⟨false, .pad, 3 * o + 1, .pad o n true, none⟩
+  | update : PadArrives o n ⟨true, .pad, 3 * o + 1, .pad o n true, none⟩
+  | paid (p : PayD) (h : (vecOf p).all = true) : PadArrives o n ⟨true, .padp, 3 * o + 1, .pad o n true, some p⟩
+
+/-- … and is stored even when the key is not held: replicated or fully paid -/
+def PadArrives.fresh {o n : Nat} {d : Delivery} : PadArrives o n d → Bool
+  | .repl => true
+  | .update => false
+  | .paid _ _ => true
+
+/-- the put does happen: a scratchpad delivery that parses, whose key matches, whose signature verifies, whose
+counter is not blocked by the local copy (a scratchpad, or none), on a path entitled to store it -/
+theorem tbl_pad_applied : ∀ client k o,
+    (!(kindFam k == 1 && o.parse && o.km && (!o.lSome || o.lOk) && !(o.lSome && o.cA) && o.cB &&
+        (if client then (if isPaid k then o.pay == .ok else (o.h1 && o.lSome)) else !isPaid k))
+      || hasW (tr client k o)) = true :=
+  allTable_spec (by decide +kernel)
+
+/-- the last put for a key in a trace is what the key holds afterwards -/
+theorem applyToks_last (toks : List Tok) (s : Store) (k : Nat) (c : Content) (h : Tok.W k c ∈ toks) :
+    ∃ c', Tok.W k c' ∈ toks ∧ (applyToks s toks).get k = some c' := by
+  induction toks generalizing s c with
+  | nil => cases h
+  | cons t rest ih =>
+    by_cases hr : ∃ c2, Tok.W k c2 ∈ rest
+    · obtain ⟨c2, h2⟩ := hr
+      cases t with
+      | W k' c' =>
+        obtain ⟨c3, hm, hg⟩ := ih (s.put k' c') c2 h2
+        exact ⟨c3, List.mem_cons_of_mem _ hm, by simpa [applyToks] using hg⟩
+      | H _ | G _ | K | V | P _ | F _ _ | R _ _ =>
+        obtain ⟨c3, hm, hg⟩ := ih s c2 h2
+        exact ⟨c3, List.mem_cons_of_mem _ hm, by simpa [applyToks] using hg⟩
+    · have ht : t = .W k c := by
+        rcases List.mem_cons.mp h with h | h
+        · exact h.symm
+        · exact absurd ⟨c, h⟩ hr
+      subst ht
+      simp only [applyToks]
+      rcases applyToks_get rest (s.put k c) k with hg | ⟨c2, hm2, _⟩
+      · exact ⟨c, List.mem_cons_self .., by rw [hg, get_put_same]⟩
+      · exact absurd ⟨c2, hm2⟩ hr
+
+theorem obs_pad_lOk {d : Delivery} {a : Ans} {o n : Nat} {v : Bool} (hc : d.content = .pad o n v) {m : Nat} {vm : Bool}
+    (hg : a.g = some (some (.pad m vm))) : (obsOfAns d a).lOk = true := by
+  obtain ⟨client, kind, rk, content, pay⟩ := d
+  simp only at hc
+  subst hc
+  simp [obsOfAns, hg]
+
+theorem pad_arrives_facts {o n : Nat} {d : Delivery} (ha : PadArrives o n d) :
+    d.content = .pad o n true ∧ rwKey d = 3 * o + 1 ∧ parseOk d = true ∧ kindFam d.kind = 1 ∧
+    (∀ a, (obsOfAns d a).km = true) ∧
+    (if d.client then (if isPaid d.kind then (∀ a, (obsOfAns d a).pay = .ok) else True) else isPaid d.kind = false) := by
+  cases ha with
+  | repl =>
+    refine ⟨rfl, by simp [rwKey, route, replRoute, derivedKey], rfl, rfl, ?_, by simp [isPaid]⟩
+    intro a; rw [obs_km]; simp [route, replRoute, derivedKey]
+  | update =>
+    refine ⟨rfl, by simp [rwKey, route, clientRoute, derivedKey], rfl, rfl, ?_, by simp [isPaid]⟩
+    intro a; rw [obs_km]; simp [route, clientRoute, derivedKey]
+  | paid p h =>
+    refine ⟨rfl, by simp [rwKey, route, clientRoute, derivedKey], rfl, rfl, ?_, ?_⟩
+    · intro a; rw [obs_km]; simp [route, clientRoute, derivedKey]
+    · simp only [isPaid, ↓reduceIte]
+      intro a
+      rw [obs_pay]
+      have := payCheck_ok_iff_all (vecOf p)
+      rw [h] at this
+      simpa using this
+
+/-- **A validly signed scratchpad arriving on a storing path is stored** when the key holds a validly signed
+scratchpad with a lower counter, or — replicated or fully paid — when the key is not held. -/
+theorem pad_arrives_applied {o n : Nat} {d : Delivery} (ha : PadArrives o n d) (s : Store)
+    (hloc : (s.get (3 * o + 1) = none ∧ ha.fresh = true) ∨ ∃ m vm, s.get (3 * o + 1) = some (.pad m vm) ∧ m < n) :
+    (deliverSeq s d).get (3 * o + 1) = some (.pad n true) := by
+  obtain ⟨hc, hrw, hparse, hfam, hkm, hpath⟩ := pad_arrives_facts ha
+  have hcB := (obs_pad (a := seqAns d s) hc).1
+  have hcond : (kindFam d.kind == 1 && (obsOfAns d (seqAns d s)).parse && (obsOfAns d (seqAns d s)).km &&
+      (!(obsOfAns d (seqAns d s)).lSome || (obsOfAns d (seqAns d s)).lOk) &&
+      !((obsOfAns d (seqAns d s)).lSome && (obsOfAns d (seqAns d s)).cA) && (obsOfAns d (seqAns d s)).cB &&
+      (if d.client then (if isPaid d.kind then (obsOfAns d (seqAns d s)).pay == .ok
+        else ((obsOfAns d (seqAns d s)).h1 && (obsOfAns d (seqAns d s)).lSome)) else !isPaid d.kind)) = true := by
+    rw [obs_parse, hparse, hkm, hcB, hfam]
+    rcases hloc with ⟨hnone, hfresh⟩ | ⟨m, vm, hheld, hlt⟩
+    · have hl : (obsOfAns d (seqAns d s)).lSome = false := by rw [obs_lSome_seq, hrw, hnone]; rfl
+      rw [hl]
+      cases ha with
+      | repl => simp [isPaid]
+      | update => simp [PadArrives.fresh] at hfresh
+      | paid p h =>
+        simp only [isPaid, ↓reduceIte] at hpath ⊢
+        simp [hpath]
+    · have hg : (seqAns d s).g = some (some (.pad m vm)) := by rw [seq_g, hrw, hheld]
+      obtain ⟨hl, hcA⟩ := (obs_pad (a := seqAns d s) hc).2 m vm hg
+      have hlo := obs_pad_lOk (a := seqAns d s) hc hg
+      have e : padRejectsEqualCounter = true := by decide
+      have hcA' : (obsOfAns d (seqAns d s)).cA = false := by
+        rw [hcA]; simp only [e, if_true, decide_eq_false_iff_not]; omega
+      have hh1 : (obsOfAns d (seqAns d s)).h1 = true := by rw [obs_h1_seq, hrw, hheld]; rfl
+      rw [hl, hlo, hcA', hh1]
+      cases ha with
+      | repl => simp [isPaid]
+      | update => simp [isPaid]
+      | paid p h =>
+        simp only [isPaid, ↓reduceIte] at hpath ⊢
+        simp [hpath]
+  have hW := imp_of_bool (tbl_pad_applied d.client d.kind (obsOfAns d (seqAns d s))) hcond
+  -- some put is in the trace; every put of this validation carries the delivered scratchpad
+  have hwritten : ∀ b, written d (seqAns d s) b = .pad n true := by intro b; simp [written, hc]
+  obtain ⟨c, hm⟩ : ∃ c, Tok.W (3 * o + 1) c ∈ (validate d s).2 := by
+    rw [validate_trace]
+    simp only [hasW, List.any_eq_true] at hW
+    obtain ⟨tk, htk, hw⟩ := hW
+    cases tk <;> simp [isW] at hw
+    · exact ⟨written d (seqAns d s) false, List.mem_map.mpr ⟨_, htk, by simp [inst, hrw]⟩⟩
+    · exact ⟨written d (seqAns d s) true, List.mem_map.mpr ⟨_, htk, by simp [inst, hrw]⟩⟩
+  obtain ⟨c', hm', hg'⟩ := applyToks_last _ s _ c hm
+  unfold deliverSeq
+  rw [hg']
+  rw [validate_trace] at hm'
+  obtain ⟨_, _, hwr⟩ := W_mem_inv hm'
+  rcases hwr with ⟨_, h⟩ | ⟨_, h⟩ <;> rw [h, hwritten]
+
+/-- **Under per-key serialisation the stored scratchpad is validly signed and carries a counter at least as
+high as every validly signed version that arrived on ANY storing path** — replicated, unpaid update, paid upload. -/
+theorem stored_scratchpad_valid_and_max_all_paths (ds : List Delivery) (s : Store) (o m : Nat)
+    (hheld : s.get (3 * o + 1) = some (.pad m true)) :
+    ∃ M, (runSerial s ds).get (3 * o + 1) = some (.pad M true) ∧ m ≤ M ∧
+      ∀ n d, d ∈ ds → PadArrives o n d → n ≤ M := by
+  induction ds generalizing s m with
+  | nil => exact ⟨m, hheld, Nat.le_refl _, by simp⟩
+  | cons d rest ih =>
+    obtain ⟨m1, h1, hg1⟩ := deliverSeq_monotone d s _ m hheld
+    obtain ⟨M, hM, hle, hall⟩ := ih (deliverSeq s d) m1 hg1
+    refine ⟨M, hM, Nat.le_trans h1 hle, ?_⟩
+    intro n d' hn ha
+    rcases List.mem_cons.mp hn with rfl | hn
+    · by_cases hlt : m < n
+      · have := pad_arrives_applied ha s (Or.inr ⟨m, true, hheld, hlt⟩)
+        rw [hg1] at this
+        injection this with this
+        injection this with this _
+        omega
+      · omega
+    · exact hall n d' hn ha
+
+/-- **A key not held initially**: if it ends up holding a scratchpad, that scratchpad is validly signed and at
+least as high as every validly signed version that arrived replicated or fully paid.  (It may instead end up
+holding the owner's transaction set — the two kinds share the key — which then refuses every scratchpad.) -/
+theorem first_arrival_scratchpad_valid_and_max (ds : List Delivery) (s : Store) (o M : Nat) (v : Bool)
+    (hnone : s.get (3 * o + 1) = none) (hfin : (runSerial s ds).get (3 * o + 1) = some (.pad M v)) :
+    v = true ∧ ∀ n d (ha : PadArrives o n d), d ∈ ds → ha.fresh = true → n ≤ M := by
+  induction ds generalizing s with
+  | nil => simp only [runSerial, List.foldl_nil] at hfin; rw [hnone] at hfin; cases hfin
+  | cons d rest ih =>
+    have hfin' : (runSerial (deliverSeq s d) rest).get (3 * o + 1) = some (.pad M v) := hfin
+    cases hg : (deliverSeq s d).get (3 * o + 1) with
+    | none =>
+      obtain ⟨hv, hall⟩ := ih (deliverSeq s d) hg hfin'
+      refine ⟨hv, ?_⟩
+      intro n d' ha hn hf
+      rcases List.mem_cons.mp hn with rfl | hn
+      · have := pad_arrives_applied ha s (Or.inl ⟨hnone, hf⟩)
+        rw [hg] at this; cases this
+      · exact hall n d' ha hn hf
+    | some c =>
+      -- whatever arrived first fixes the kind
+      obtain ⟨cf, hcf, hfam⟩ := serial_kind_preserved_partial rest (deliverSeq s d) _ c hg
+      rw [hfin'] at hcf
+      injection hcf with hcf
+      subst hcf
+      cases c with
+      | pad m' v' =>
+        -- it was put by this validation: validly signed
+        have hv' : v' = true := by
+          have hgd := hg
+          unfold deliverSeq at hgd
+          rcases applyToks_get (validate d s).2 s (3 * o + 1) with h | ⟨c2, hm, h2⟩
+          · rw [h, hnone] at hgd; cases hgd
+          · rw [h2] at hgd
+            injection hgd with hgd
+            subst hgd
+            exact (stored_scratchpad_valid d s _ m' v' hm).1
+        subst hv'
+        obtain ⟨M', hM', hle, hall⟩ := stored_scratchpad_valid_and_max_all_paths rest (deliverSeq s d) o m' hg
+        rw [hfin'] at hM'
+        injection hM' with hM'
+        injection hM' with hM1 hM2
+        subst hM1 hM2
+        refine ⟨rfl, ?_⟩
+        intro n d' ha hn hf
+        rcases List.mem_cons.mp hn with rfl | hn
+        · have := pad_arrives_applied ha s (Or.inl ⟨hnone, hf⟩)
+          rw [hg] at this
+          injection this with this
+          injection this with this _
+          omega
+        · exact hall n d' hn ha
+      | chunk => simp [fam] at hfam
+      | txs l => simp [fam] at hfam
+      | reg a l => simp [fam] at hfam
+
+/-! ## Over the record store as it is (`Validate ∘ Store`): validations never overlap, writes complete asynchronously
+
+`ValidateStore.runOps (ValidateStore.fresh cache) ops`: a node store on an empty directory (shipped constants, FIFO
+cache of `cache` entries); each `deliver` is one validation processed to completion — reads answered by
+`Store.contains` / `Store.get`, its put handed to `Store.putVerified`; `run n` / `ack n` complete the `n`-th disk
+write / handle its `AddLocalRecordAsStored`.  `ValidateStore.view` is what `GetLocalRecord` returns.
+
+The full-strength statements are FALSE of the code (known finding K-f3): `get` serves the cache, then — only for a
+key already in the `records` index — the record file, so while an accepted write is in flight a validation of the
+same key can read an older copy (the cache entry evicted by puts of other keys) or nothing (`RecordStoreHasKey`
+before the first acknowledgement), and validates against that. -/
+
+section OverStore
+open SafeNet.ValidateStore (Op DX runOps fresh view settled Disciplined deliveriesOf)
+open SafeNet.Store (KeyQuiet)
+
+/-- **Full strength**: in every history in which validations never overlap, a scratchpad counter the store has
+shown never decreases -/
+def StoredCounterNeverDecreasesOverStore : Prop :=
+  ∀ (cache : Nat) (pre post : List Op) (k m : Nat), 0 < cache →
+    view (runOps (fresh cache) pre) k = some (.pad m true) →
+    ∃ m', m ≤ m' ∧ view (runOps (fresh cache) (pre ++ post)) k = some (.pad m' true)
+
+/-- **Full strength**: … a transaction the store has shown is never lost -/
+def NoTransactionLostOverStore : Prop :=
+  ∀ (cache : Nat) (pre post : List Op) (k x : Nat) (l : List Nat), 0 < cache →
+    view (runOps (fresh cache) pre) k = some (.txs l) → x ∈ l →
+    ∃ l', view (runOps (fresh cache) (pre ++ post)) k = some (.txs l') ∧ x ∈ l'
+
+/-- **Full strength**: … a register operation the store has shown is never lost -/
+def NoRegisterOpLostOverStore : Prop :=
+  ∀ (cache : Nat) (pre post : List Op) (k x : Nat) (alt : Bool) (l : List Nat), 0 < cache →
+    view (runOps (fresh cache) pre) k = some (.reg alt l) → x ∈ l →
+    ∃ l', view (runOps (fresh cache) (pre ++ post)) k = some (.reg alt l') ∧ x ∈ l'
+
+/-- a replicated validly signed scratchpad of owner `o`, counter `n`, presented under key `k` -/
+def sPad (k o n : Nat) : Op := .deliver (.plain ⟨false, .pad, k, .pad o n true, none⟩)
+def sTx (k o t : Nat) : Op := .deliver (.plain ⟨false, .tx, k, .txs [⟨o, t, true⟩], none⟩)
+def sReg (id : Nat) (ops : List Nat) : Op :=
+  .deliver (.plain ⟨false, .reg, 3 * id + 2, .reg id .good (ops.map fun i => ⟨i, .v⟩), none⟩)
+
+/-- cache size 1: counter 3 stored and acknowledged; 7 accepted (cached, write in flight) -/
+def staleOpsPre : List Op := [sPad 1 0 3, .run 0, .ack 0, sPad 1 0 7]
+/-- a put of another key evicts 7 from the cache; the validation of 5 reads the file (3) and is accepted; the
+writes complete in order: the store settles on 5 -/
+def staleOpsPost : List Op := [sPad 4 1 1, sPad 1 0 5, .run 1, .run 3, .ack 1, .ack 3, .run 2, .ack 2]
+
+/-- K-f3: 3 → 7 → (7 evicted, still in flight) → 5 accepted; everything settled: 5 -/
+theorem stale_read_regress_witness :
+    view (runOps (fresh 1) staleOpsPre) 1 = some (.pad 7 true) ∧
+    view (runOps (fresh 1) (staleOpsPre ++ [sPad 4 1 1])) 1 = some (.pad 3 true) ∧
+    view (runOps (fresh 1) (staleOpsPre ++ staleOpsPost)) 1 = some (.pad 5 true) ∧
+    settled (runOps (fresh 1) (staleOpsPre ++ staleOpsPost)) = true := by decide +kernel
+
+theorem storedCounterNeverDecreasesOverStore_false : ¬ StoredCounterNeverDecreasesOverStore := by
+  intro h
+  obtain ⟨m', hle, hg⟩ := h 1 staleOpsPre staleOpsPost 1 7 (by decide) stale_read_regress_witness.1
+  rw [stale_read_regress_witness.2.2.1] at hg
+  injection hg with hg
+  injection hg with hg _
+  omega
+
+/-- the same with the DEFAULT cache size (`MAX_RECORDS_CACHE_SIZE`): that many puts of other keys between the two
+updates of key 1 -/
+def otherPuts : Nat → List Op
+  | 0 => []
+  | n + 1 => otherPuts n ++ [.deliver (.plain ⟨false, .chunk, 3 * n, .chunk n, none⟩)]
+
+theorem stale_read_regress_default_cache_witness :
+    view (runOps (fresh Gen.Store.maxRecordsCacheSize)
+      ([sPad 1 0 3, .run 0, .ack 0, sPad 1 0 7] ++ otherPuts Gen.Store.maxRecordsCacheSize)) 1 = some (.pad 3 true) ∧
+    view (runOps (fresh Gen.Store.maxRecordsCacheSize)
+      ([sPad 1 0 3, .run 0, .ack 0, sPad 1 0 7] ++ otherPuts Gen.Store.maxRecordsCacheSize ++ [sPad 1 0 5, .run 1, .ack 1])) 1
+      = some (.pad 5 true) := by decide +kernel
+
+def staleTxPre : List Op := [sTx 1 0 1, .run 0, .ack 0, sTx 1 0 2]
+def staleTxPost : List Op := [sPad 4 1 1, sTx 1 0 3, .run 1, .run 3, .ack 1, .ack 3, .run 2, .ack 2]
+
+/-- K-f3: {1} → {1,2} → (evicted, in flight) → 3 merged with the stale {1}; settled: {1,3}, transaction 2 is lost -/
+theorem stale_read_tx_loss_witness :
+    view (runOps (fresh 1) staleTxPre) 1 = some (.txs [1, 2]) ∧
+    view (runOps (fresh 1) (staleTxPre ++ staleTxPost)) 1 = some (.txs [1, 3]) ∧
+    settled (runOps (fresh 1) (staleTxPre ++ staleTxPost)) = true := by decide +kernel
+
+theorem noTransactionLostOverStore_false : ¬ NoTransactionLostOverStore := by
+  intro h
+  obtain ⟨l', hg, hx⟩ := h 1 staleTxPre staleTxPost 1 2 [1, 2] (by decide) stale_read_tx_loss_witness.1 (by decide)
+  rw [stale_read_tx_loss_witness.2.1] at hg
+  injection hg with hg
+  injection hg with hg
+  subst hg
+  simp at hx
+
+/-- K-f3 with the DEFAULT cache size and no eviction at all: the first copy of a register is accepted (cached,
+readable) but not yet acknowledged, `RecordStoreHasKey` says "not held", the second copy replaces it instead of
+being merged: operation 1 is lost -/
+theorem unacked_register_overwritten_witness :
+    view (runOps (fresh Gen.Store.maxRecordsCacheSize) [sReg 0 [1]]) 2 = some (.reg false [1]) ∧
+    view (runOps (fresh Gen.Store.maxRecordsCacheSize) ([sReg 0 [1]] ++ [sReg 0 [2], .run 0, .run 1, .ack 0, .ack 1])) 2
+      = some (.reg false [2]) ∧
+    settled (runOps (fresh Gen.Store.maxRecordsCacheSize) ([sReg 0 [1]] ++ [sReg 0 [2], .run 0, .run 1, .ack 0, .ack 1])) = true := by
+  decide +kernel
+
+theorem noRegisterOpLostOverStore_false : ¬ NoRegisterOpLostOverStore := by
+  intro h
+  obtain ⟨l', hg, hx⟩ := h Gen.Store.maxRecordsCacheSize [sReg 0 [1]] [sReg 0 [2], .run 0, .run 1, .ack 0, .ack 1] 2 1 false [1]
+    (by decide) unacked_register_overwritten_witness.1 (by decide)
+  rw [unacked_register_overwritten_witness.2.1] at hg
+  injection hg with hg
+  injection hg with _ hg
+  subst hg
+  simp at hx
+
+theorem runSerial_append (s : Store) (a b : List Delivery) : runSerial s (a ++ b) = runSerial (runSerial s a) b := by
+  simp [runSerial, List.foldl_append]
+
+/-- **Refinement (`_partial`, hypothesis `Disciplined`: every validation starts when every accepted write of its
+key has completed and been acknowledged, and the store is below capacity).**  After any such history from an
+empty node store, a key with nothing in flight reads as — and is listed iff — the serial plain-map run of the
+deliveries holds it: every theorem about `runSerial` is a theorem about the store. -/
+theorem store_refines_serial_partial (cache : Nat) (ops : List Op) (hd : Disciplined (fresh cache) ops) (k : Nat)
+    (hq : KeyQuiet (runOps (fresh cache) ops).st k) :
+    view (runOps (fresh cache) ops) k = (runSerial [] (deliveriesOf ops)).get k ∧
+    ValidateStore.has (runOps (fresh cache) ops) k = ((runSerial [] (deliveriesOf ops)).get k).isSome :=
+  ValidateStore.view_after cache ops hd k hq
+
+/-- **Under `Disciplined` the stored scratchpad counter never decreases and the signature stays valid** (observed
+at points where nothing of the key is in flight). -/
+theorem store_scratchpad_never_regresses_partial (cache : Nat) (pre post : List Op) (k m : Nat)
+    (hd : Disciplined (fresh cache) (pre ++ post))
+    (hq1 : KeyQuiet (runOps (fresh cache) pre).st k) (hq2 : KeyQuiet (runOps (fresh cache) (pre ++ post)).st k)
+    (hv : view (runOps (fresh cache) pre) k = some (.pad m true)) :
+    ∃ m', m ≤ m' ∧ view (runOps (fresh cache) (pre ++ post)) k = some (.pad m' true) := by
+  have hd1 := (ValidateStore.Disciplined_append hd).1
+  rw [(ValidateStore.view_after cache pre hd1 k hq1).1] at hv
+  rw [(ValidateStore.view_after cache (pre ++ post) hd k hq2).1, ValidateStore.deliveriesOf_append, runSerial_append]
+  exact serial_scratchpad_never_regresses_partial _ _ k m hv
+
+/-- **Under `Disciplined` a stored transaction is never lost.** -/
+theorem store_transactions_never_lost_partial (cache : Nat) (pre post : List Op) (k : Nat) (l : List Nat)
+    (hd : Disciplined (fresh cache) (pre ++ post))
+    (hq1 : KeyQuiet (runOps (fresh cache) pre).st k) (hq2 : KeyQuiet (runOps (fresh cache) (pre ++ post)).st k)
+    (hv : view (runOps (fresh cache) pre) k = some (.txs l)) :
+    ∃ l', view (runOps (fresh cache) (pre ++ post)) k = some (.txs l') ∧ ∀ x ∈ l, x ∈ l' := by
+  have hd1 := (ValidateStore.Disciplined_append hd).1
+  rw [(ValidateStore.view_after cache pre hd1 k hq1).1] at hv
+  rw [(ValidateStore.view_after cache (pre ++ post) hd k hq2).1, ValidateStore.deliveriesOf_append, runSerial_append]
+  exact serial_transactions_never_lost_partial _ _ k l hv
+
+/-- **Under `Disciplined` a stored register operation is never lost and the base register never changes.** -/
+theorem store_register_never_lost_partial (cache : Nat) (pre post : List Op) (k : Nat) (alt : Bool) (l : List Nat)
+    (hd : Disciplined (fresh cache) (pre ++ post))
+    (hq1 : KeyQuiet (runOps (fresh cache) pre).st k) (hq2 : KeyQuiet (runOps (fresh cache) (pre ++ post)).st k)
+    (hv : view (runOps (fresh cache) pre) k = some (.reg alt l)) :
+    ∃ l', view (runOps (fresh cache) (pre ++ post)) k = some (.reg alt l') ∧ ∀ x ∈ l, x ∈ l' := by
+  have hd1 := (ValidateStore.Disciplined_append hd).1
+  rw [(ValidateStore.view_after cache pre hd1 k hq1).1] at hv
+  rw [(ValidateStore.view_after cache (pre ++ post) hd k hq2).1, ValidateStore.deliveriesOf_append, runSerial_append]
+  exact serial_register_never_lost_partial _ _ k alt l hv
+
+/-- the hypothesis is satisfiable on the histories of the witnesses once every write is acknowledged before the
+next validation of the key: the same deliveries, disciplined, end with 7 -/
+example : view (runOps (fresh 1) [sPad 1 0 3, .run 0, .ack 0, sPad 1 0 7, sPad 4 1 1, .run 1, .ack 1, sPad 1 0 5, .run 2, .ack 2]) 1
+    = some (.pad 7 true) := by decide +kernel
+
+end OverStore
+
+/-! ## "Hold only owner-signed content": which fields of a stored scratchpad the owner's signature covers
+
+`Scratchpad::is_valid` verifies the owner's signature over `counter ‖ hash(encrypted_data)`; the list of fields it
+looks at is regenerated from the source (`Gen.PadSig`).  `data_encoding` is serialised, stored and served but not
+among them (known finding K-f4). -/
+
+/-- what the validation model's `valid` bit stands for: the signature by the owner key of the address over the
+counter and the (hash of the) data — read off `is_valid` -/
+theorem pad_signature_covers_counter_data_owner :
+    Gen.PadSig.sigCoversCounter = true ∧ Gen.PadSig.sigCoversData = true ∧ Gen.PadSig.sigKeyFromAddress = true := by
+  decide
+
+/-- whatever answers a validation got (`a`): a scratchpad put carries a verifying signature, is the delivered
+scratchpad, goes to the validation's own key, and if the local read returned a scratchpad its counter is
+strictly lower -/
+theorem pad_put_any {d : Delivery} {a : Ans} {k n : Nat} {v : Bool}
+    (hW : Tok.W k (.pad n v) ∈ (tr d.client d.kind (obsOfAns d a)).map (inst d a)) :
+    k = rwKey d ∧ v = true ∧ (∃ o, d.content = .pad o n true) ∧
+      ∀ m vm, a.g = some (some (.pad m vm)) → m < n := by
+  obtain ⟨hk, hw, hwr⟩ := W_mem_inv hW
+  have hkey := imp_of_bool (tbl_put_needs_key_match d.client d.kind (obsOfAns d a)) hw
+  simp only [Bool.and_eq_true] at hkey
+  have hparse := hkey.2
+  rw [obs_parse] at hparse
+  obtain ⟨o, hc⟩ : ∃ o, d.content = .pad o n v := by
+    rcases hwr with ⟨_, h⟩ | ⟨_, h⟩ <;> exact written_pad h.symm
+  have hfam : kindFam d.kind = 1 := by
+    have := parse_fam hparse
+    rw [hc] at this
+    simpa [contentFam] using this.symm
+  have hp := imp_of_bool (tbl_pad_put d.client d.kind (obsOfAns d a)) (and2 hw (by rw [hfam]; rfl))
+  obtain ⟨hcB, hobs⟩ := obs_pad (a := a) hc
+  simp only [Bool.and_eq_true] at hp
+  have hv : v = true := by rw [← hcB]; exact hp.1.2
+  subst hv
+  refine ⟨hk, rfl, ⟨o, hc⟩, ?_⟩
+  intro m vm hg
+  obtain ⟨hl, hcA⟩ := hobs m vm hg
+  have e : padRejectsEqualCounter = true := by decide
+  have h1 := hp.1.1
+  simp only [hl, hcA, e, if_true, Bool.true_and, Bool.not_eq_eq_eq_not, Bool.not_true,
+    decide_eq_false_iff_not] at h1
+  omega
+
+section SignedFields
+open SafeNet.ValidateStore (Op DX SVal runOps fresh viewS ownerEnc)
+
+/-- **Full strength**: every field of a stored, validly signed scratchpad is what its owner signed — in
+particular `data_encoding` is the owner's.  (Deliveries are arbitrary but for the ideal-signature condition
+`DX.wf`.) -/
+def EveryStoredPadFieldOwnerSigned : Prop :=
+  ∀ (cache : Nat) (ops : List Op) (k : Nat) (x : SVal) (n : Nat), 0 < cache →
+    (∀ dx, Op.deliver dx ∈ ops → dx.wf = true) →
+    viewS (runOps (fresh cache) ops) k = some x → x.c = .pad n true → x.enc = ownerEnc
+
+/-- the owner-signed version 5 of owner 0's scratchpad with `data_encoding` changed from 7 to 8: the signature
+verifies, the record is accepted, stored and served -/
+def encTampered : DX := ⟨⟨false, .pad, 1, .pad 0 5 true, none⟩, 8, 0⟩
+
+/-- K-f4 -/
+theorem unsigned_data_encoding_witness :
+    encTampered.wf = true ∧
+    viewS (runOps (fresh Gen.Store.maxRecordsCacheSize) [.deliver encTampered, .run 0, .ack 0]) 1 = some ⟨.pad 5 true, 8, 0⟩ := by
+  decide +kernel
+
+theorem everyStoredPadFieldOwnerSigned_false : ¬ EveryStoredPadFieldOwnerSigned := by
+  intro h
+  have := h Gen.Store.maxRecordsCacheSize [.deliver encTampered, .run 0, .ack 0] 1 ⟨.pad 5 true, 8, 0⟩ 5 (by decide)
+    (by
+      intro dx hm
+      simp only [List.mem_cons, Op.deliver.injEq, reduceCtorEq, List.not_mem_nil, or_false] at hm
+      subst hm
+      exact unsigned_data_encoding_witness.1)
+    unsigned_data_encoding_witness.2 rfl
+  revert this
+  decide
+
+/-- the value table holds no validly signed scratchpad with a foreign `data_encoding` -/
+def TblOk (vs : ValidateStore.VS) : Prop := ∀ x ∈ vs.tbl, ∀ n, x.c = .pad n true → x.enc = ownerEnc
+
+theorem mem_intern {t : List SVal} {x y : SVal} (h : y ∈ (ValidateStore.intern t x).2) : y ∈ t ∨ y = x := by
+  unfold ValidateStore.intern at h
+  split at h
+  · exact Or.inl h
+  · simpa using h
+
+theorem putRec_tbl (vs : ValidateStore.VS) (k : Nat) (x : SVal) :
+    ∀ y ∈ (ValidateStore.putRec vs k x).1.tbl, y ∈ vs.tbl ∨ y = x := by
+  intro y hy
+  obtain ⟨_, _, htbl, _, _⟩ := ValidateStore.putRec_fields vs k x
+  rw [htbl] at hy
+  exact mem_intern hy
+
+theorem applyToksS_tblOk (dx : DX) (toks : List Tok) (vs : ValidateStore.VS) (h : TblOk vs)
+    (hp : ∀ k n, Tok.W k (.pad n true) ∈ toks → dx.enc = ownerEnc) : TblOk (ValidateStore.applyToksS vs dx toks).1 := by
+  induction toks generalizing vs with
+  | nil => exact h
+  | cons t rest ih =>
+    cases t with
+    | W k c =>
+      simp only [ValidateStore.applyToksS]
+      apply ih
+      · intro y hy n hn
+        rcases putRec_tbl vs k _ y hy with hy | rfl
+        · exact h y hy n hn
+        · cases c with
+          | pad m v =>
+            simp only [ValidateStore.svalOf] at hn ⊢
+            injection hn with h1 h2
+            subst h1 h2
+            exact hp k m (List.mem_cons_self ..)
+          | chunk => simp only [ValidateStore.svalOf] at hn; cases hn
+          | txs l => simp only [ValidateStore.svalOf] at hn; cases hn
+          | reg a l => simp only [ValidateStore.svalOf] at hn; cases hn
+      · intro k' n hm; exact hp k' n (by simp [hm])
+    | H _ | G _ | K | V | P _ | F _ _ | R _ _ =>
+      simp only [ValidateStore.applyToksS]
+      exact ih vs h (fun k n hm => hp k n (by simp [hm]))
+
+theorem step_tblOk (vs : ValidateStore.VS) (op : Op) (h : TblOk vs)
+    (henc : ∀ dx, op = .deliver dx → dx.encAsSigned = true) : TblOk (ValidateStore.step vs op) := by
+  cases op with
+  | deliver dx =>
+    simp only [ValidateStore.step, ValidateStore.deliver]
+    apply applyToksS_tblOk dx _ vs h
+    intro k n hW
+    obtain ⟨_, _, ⟨o, hc⟩, _⟩ := pad_put_any (d := dx.d) (a := ValidateStore.ansOf vs dx.d) hW
+    have := henc dx rfl
+    simp only [DX.encAsSigned, hc, beq_iff_eq] at this
+    exact this
+  | run n =>
+    simp only [ValidateStore.step]
+    cases vs.wids[n]? <;> exact h
+  | ack n =>
+    simp only [ValidateStore.step]
+    cases vs.wids[n]? <;> exact h
+
+/-- **`_partial` (hypothesis: every delivered scratchpad whose signature verifies carries the `data_encoding` its
+owner signed it with): every stored validly signed scratchpad carries the owner's `data_encoding`.**  Together
+with `stored_scratchpad_valid` (owner key, counter and data are covered by the verified signature) every field
+of a stored scratchpad is then the owner's. -/
+theorem stored_pad_fields_owner_signed_partial (cache : Nat) (ops : List Op) (k : Nat) (x : SVal) (n : Nat)
+    (henc : ∀ dx, Op.deliver dx ∈ ops → dx.encAsSigned = true)
+    (hv : viewS (runOps (fresh cache) ops) k = some x) (hx : x.c = .pad n true) : x.enc = ownerEnc := by
+  have hall : ∀ (ops : List Op) (vs : ValidateStore.VS), TblOk vs →
+      (∀ dx, Op.deliver dx ∈ ops → dx.encAsSigned = true) → TblOk (runOps vs ops) := by
+    intro ops
+    induction ops with
+    | nil => intro vs h _; exact h
+    | cons op rest ih =>
+      intro vs h he
+      simp only [ValidateStore.runOps, List.foldl_cons]
+      apply ih
+      · exact step_tblOk vs op h (fun dx hd => he dx (by simp [hd]))
+      · intro dx hm; exact he dx (by simp [hm])
+  have hok := hall ops (fresh cache) (by intro x hx; cases hx) henc
+  unfold ValidateStore.viewS at hv
+  split at hv
+  · rename_i v _
+    simp only [ValidateStore.valAt] at hv
+    exact hok x (List.mem_of_getElem? hv) n hx
+  · cases hv
+
+end SignedFields
+
+/-! ### Scratchpads and transaction sets: "still cached" suffices
+
+Their decisions read only the record (`GetLocalRecord`), and `get` serves the FIFO cache first — so a validation
+reads the last accepted copy as long as the key is still cached, even before the acknowledgement.  (Registers
+also ask `RecordStoreHasKey`, which reads the index: for them only the acknowledgement will do, see
+`unacked_register_overwritten_witness`.) -/
+
+section Cached
+open SafeNet.ValidateStore (Op DX runOps fresh view ReadsLastWrite Readable)
+
+/-- a put, whatever the answers: the delivery parsed as the kind it claims, and the key is the validation's own -/
+theorem put_any_key {d : Delivery} {a : Ans} {k : Nat} {c : Content}
+    (hW : Tok.W k c ∈ (tr d.client d.kind (obsOfAns d a)).map (inst d a)) :
+    k = rwKey d ∧ contentFam d.content = some (kindFam d.kind) ∧ hasW (tr d.client d.kind (obsOfAns d a)) = true ∧
+      (c = written d a false ∨ c = written d a true) := by
+  obtain ⟨hk, hw, hwr⟩ := W_mem_inv hW
+  have hkey := imp_of_bool (tbl_put_needs_key_match d.client d.kind (obsOfAns d a)) hw
+  simp only [Bool.and_eq_true] at hkey
+  have hparse := hkey.2
+  rw [obs_parse] at hparse
+  refine ⟨hk, parse_fam hparse, hw, ?_⟩
+  rcases hwr with ⟨_, h⟩ | ⟨_, h⟩
+  · exact Or.inl h
+  · exact Or.inr h
+
+/-- chunks and registers never go to an owner key (`3·o + 1`) -/
+theorem rwKey_chunk_reg {d : Delivery} (hf : contentFam d.content = some (kindFam d.kind))
+    (h03 : kindFam d.kind = 0 ∨ kindFam d.kind = 3) (o : Nat) : rwKey d ≠ 3 * o + 1 := by
+  obtain ⟨client, kind, rk, content, pay⟩ := d
+  simp only at hf h03
+  cases content with
+  | bad => simp [contentFam] at hf
+  | chunk id =>
+    simp only [contentFam, Option.some.injEq] at hf
+    have hk : kind = .chunk ∨ kind = .chunkp := by cases kind <;> simp [kindFam] at hf <;> simp
+    rcases hk with rfl | rfl <;> cases client <;> simp [rwKey, route, clientRoute, replRoute, derivedKey] <;> omega
+  | pad o' n v =>
+    simp only [contentFam, Option.some.injEq] at hf
+    rcases h03 with h | h <;> omega
+  | txs l =>
+    simp only [contentFam, Option.some.injEq] at hf
+    rcases h03 with h | h <;> omega
+  | reg id b ops =>
+    simp only [contentFam, Option.some.injEq] at hf
+    have hk : kind = .reg ∨ kind = .regp := by cases kind <;> simp [kindFam] at hf <;> simp
+    rcases hk with rfl | rfl <;> cases client <;> simp [rwKey, route, clientRoute, replRoute, derivedKey] <;> omega
+
+theorem kindFam_cases (k : Kind) : kindFam k = 0 ∨ kindFam k = 1 ∨ kindFam k = 2 ∨ kindFam k = 3 := by
+  cases k <;> simp [kindFam]
+
+theorem obs_tx_lOk {d : Delivery} {a : Ans} {l : List TxD} (hc : d.content = .txs l) :
+    (obsOfAns d a).lOk = (match a.g.getD none with | some (.txs _) => true | _ => false) := by
+  obtain ⟨client, kind, rk, content, pay⟩ := d
+  simp only at hc
+  subst hc
+  rfl
+
+/-- whatever `RecordStoreHasKey` said: a put over an owner key whose local read returned a scratchpad is a validly
+signed scratchpad with a strictly higher counter -/
+theorem put_over_pad_any {d : Delivery} {a : Ans} {o m : Nat} {vm : Bool} {c : Content}
+    (hW : Tok.W (3 * o + 1) c ∈ (tr d.client d.kind (obsOfAns d a)).map (inst d a))
+    (hg : a.g = some (some (.pad m vm))) : ∃ n, c = .pad n true ∧ m < n := by
+  obtain ⟨hk, hf, hw, hwr⟩ := put_any_key hW
+  rcases kindFam_cases d.kind with h | h | h | h
+  · exact absurd hk.symm (rwKey_chunk_reg hf (Or.inl h) o)
+  · -- a scratchpad delivery
+    have hc : ∃ o' n v, d.content = .pad o' n v := by
+      rw [h] at hf
+      cases hcc : d.content <;> simp [hcc, contentFam] at hf
+      exact ⟨_, _, _, rfl⟩
+    obtain ⟨o', n, v, hc⟩ := hc
+    have hcw : c = .pad n v := by rcases hwr with h | h <;> simp [h, written, hc]
+    subst hcw
+    obtain ⟨_, hv, _, hlt⟩ := pad_put_any hW
+    subst hv
+    exact ⟨n, rfl, hlt m vm hg⟩
+  · -- a transaction delivery: refused, the local copy is not a transaction set
+    exfalso
+    have hc : ∃ l, d.content = .txs l := by
+      rw [h] at hf
+      cases hcc : d.content <;> simp [hcc, contentFam] at hf
+      exact ⟨_, rfl⟩
+    obtain ⟨l, hc⟩ := hc
+    have hp := imp_of_bool (tbl_tx_put d.client d.kind (obsOfAns d a)) (and2 hw (by rw [h]; rfl))
+    simp only [Bool.and_eq_true, Bool.or_eq_true, Bool.not_eq_eq_eq_not, Bool.not_true] at hp
+    have hl : (obsOfAns d a).lSome = true := by rw [obs_lSome, hg]; rfl
+    have hlo : (obsOfAns d a).lOk = false := by rw [obs_tx_lOk hc, hg]; rfl
+    rcases hp.1.2 with h1 | h1
+    · rw [hl] at h1; cases h1
+    · rw [hlo] at h1; cases h1
+  · exact absurd hk.symm (rwKey_chunk_reg hf (Or.inr h) o)
+
+/-- whatever `RecordStoreHasKey` said: a put over an owner key whose local read returned a transaction set is a
+transaction set containing it -/
+theorem put_over_txs_any {d : Delivery} {a : Ans} {o : Nat} {l : List Nat} {c : Content}
+    (hW : Tok.W (3 * o + 1) c ∈ (tr d.client d.kind (obsOfAns d a)).map (inst d a))
+    (hg : a.g = some (some (.txs l))) : ∃ l', c = .txs l' ∧ ∀ x ∈ l, x ∈ l' := by
+  obtain ⟨hk, hf, hw, hwr⟩ := put_any_key hW
+  rcases kindFam_cases d.kind with h | h | h | h
+  · exact absurd hk.symm (rwKey_chunk_reg hf (Or.inl h) o)
+  · -- a scratchpad delivery: refused, the local copy is not a scratchpad
+    exfalso
+    have hc : ∃ o' n v, d.content = .pad o' n v := by
+      rw [h] at hf
+      cases hcc : d.content <;> simp [hcc, contentFam] at hf
+      exact ⟨_, _, _, rfl⟩
+    obtain ⟨o', n, v, hc⟩ := hc
+    have hp := imp_of_bool (tbl_pad_put d.client d.kind (obsOfAns d a)) (and2 hw (by rw [h]; rfl))
+    simp only [Bool.and_eq_true, Bool.or_eq_true, Bool.not_eq_eq_eq_not, Bool.not_true] at hp
+    have hl : (obsOfAns d a).lSome = true := by rw [obs_lSome, hg]; rfl
+    have hlo : (obsOfAns d a).lOk = false := by
+      obtain ⟨client, kind, rk, content, pay⟩ := d
+      simp only at hc
+      subst hc
+      simp [obsOfAns, hg]
+    rcases hp.2 with h1 | h1
+    · rw [hl] at h1; cases h1
+    · rw [hlo] at h1; cases h1
+  · have hc : ∃ lt, d.content = .txs lt := by
+      rw [h] at hf
+      cases hcc : d.content <;> simp [hcc, contentFam] at hf
+      exact ⟨_, rfl⟩
+    obtain ⟨lt, hc⟩ := hc
+    have hcw : ∃ l', c = .txs l' := by
+      rcases hwr with h | h <;> (rw [h]; simp only [written, hc]; split <;> exact ⟨_, rfl⟩)
+    obtain ⟨l', rfl⟩ := hcw
+    refine ⟨l', rfl, ?_⟩
+    have hl' : l' = union ((txValid d).map (·.t))
+        (match a.g.getD none with | some (.txs l) => if txMergesLocal then l else [] | _ => []) := by
+      rcases hwr with h | h <;> exact written_txs h.symm
+    intro x hx
+    have e : txMergesLocal = true := by decide
+    rw [hl', mem_union, hg]
+    simp only [Option.getD_some, e, if_true]
+    exact Or.inr hx
+  · exact absurd hk.symm (rwKey_chunk_reg hf (Or.inr h) o)
+
+/-- **`_partial` under the weaker hypothesis `ReadsLastWrite` (every validation starts when its key is still
+cached or has nothing in flight; below capacity): the stored scratchpad counter never decreases and the
+signature stays valid**, observed at points where the key is readable in that sense. -/
+theorem store_scratchpad_never_regresses_cached_partial (cache : Nat) (pre post : List Op) (o m : Nat)
+    (hd : ReadsLastWrite (fresh cache) (pre ++ post))
+    (hr1 : Readable (runOps (fresh cache) pre) (3 * o + 1))
+    (hr2 : Readable (runOps (fresh cache) (pre ++ post)) (3 * o + 1))
+    (hv : view (runOps (fresh cache) pre) (3 * o + 1) = some (.pad m true)) :
+    ∃ m', m ≤ m' ∧ view (runOps (fresh cache) (pre ++ post)) (3 * o + 1) = some (.pad m' true) := by
+  obtain ⟨hd1, hd2⟩ := ValidateStore.ReadsLastWrite_append hd
+  obtain ⟨w1, s1, hrel1, _⟩ := ValidateStore.runOps_inv (fun _ => True) (fun _ _ _ _ _ => trivial) pre
+    (ValidateStore.rel_fresh cache) hd1 trivial
+  rw [ValidateStore.view_of_readable hrel1 _ hr1] at hv
+  obtain ⟨w2, s2, hrel2, m', hle, hg⟩ := ValidateStore.runOps_inv
+    (fun s => ∃ m', m ≤ m' ∧ s.get (3 * o + 1) = some (.pad m' true))
+    (by
+      intro vs s dx ⟨m1, hle1, hg1⟩ hview
+      rcases applyToks_get (ValidateStore.validateS vs dx.d).2 s (3 * o + 1) with h | ⟨c, hm, hgc⟩
+      · exact ⟨m1, hle1, by rw [h, hg1]⟩
+      · have hk : 3 * o + 1 = rwKey dx.d := (W_mem_inv hm).1
+        have hga : (ValidateStore.ansOf vs dx.d).g = some (some (.pad m1 true)) := by
+          simp only [ValidateStore.ansOf]; rw [hview, ← hk, hg1]
+        obtain ⟨n, rfl, hlt⟩ := put_over_pad_any hm hga
+        exact ⟨n, by omega, hgc⟩)
+    post hrel1 hd2 ⟨m, Nat.le_refl _, hv⟩
+  rw [ValidateStore.runOps_append, ValidateStore.view_of_readable hrel2 _ (by rw [← ValidateStore.runOps_append]; exact hr2)]
+  exact ⟨m', hle, hg⟩
+
+/-- **… and a stored transaction is never lost.** -/
+theorem store_transactions_never_lost_cached_partial (cache : Nat) (pre post : List Op) (o : Nat) (l : List Nat)
+    (hd : ReadsLastWrite (fresh cache) (pre ++ post))
+    (hr1 : Readable (runOps (fresh cache) pre) (3 * o + 1))
+    (hr2 : Readable (runOps (fresh cache) (pre ++ post)) (3 * o + 1))
+    (hv : view (runOps (fresh cache) pre) (3 * o + 1) = some (.txs l)) :
+    ∃ l', view (runOps (fresh cache) (pre ++ post)) (3 * o + 1) = some (.txs l') ∧ ∀ x ∈ l, x ∈ l' := by
+  obtain ⟨hd1, hd2⟩ := ValidateStore.ReadsLastWrite_append hd
+  obtain ⟨w1, s1, hrel1, _⟩ := ValidateStore.runOps_inv (fun _ => True) (fun _ _ _ _ _ => trivial) pre
+    (ValidateStore.rel_fresh cache) hd1 trivial
+  rw [ValidateStore.view_of_readable hrel1 _ hr1] at hv
+  obtain ⟨w2, s2, hrel2, l', hg, hsub⟩ := ValidateStore.runOps_inv
+    (fun s => ∃ l', s.get (3 * o + 1) = some (.txs l') ∧ ∀ x ∈ l, x ∈ l')
+    (by
+      intro vs s dx ⟨l1, hg1, hs1⟩ hview
+      rcases applyToks_get (ValidateStore.validateS vs dx.d).2 s (3 * o + 1) with h | ⟨c, hm, hgc⟩
+      · exact ⟨l1, by rw [h, hg1], hs1⟩
+      · have hk : 3 * o + 1 = rwKey dx.d := (W_mem_inv hm).1
+        have hga : (ValidateStore.ansOf vs dx.d).g = some (some (.txs l1)) := by
+          simp only [ValidateStore.ansOf]; rw [hview, ← hk, hg1]
+        obtain ⟨l2, rfl, hs2⟩ := put_over_txs_any hm hga
+        exact ⟨l2, hgc, fun x hx => hs2 x (hs1 x hx)⟩)
+    post hrel1 hd2 ⟨l, hv, fun x hx => hx⟩
+  rw [ValidateStore.runOps_append, ValidateStore.view_of_readable hrel2 _ (by rw [← ValidateStore.runOps_append]; exact hr2)]
+  exact ⟨l', hg, hsub⟩
+
+end Cached
+
+
 /-! Non-vacuity -/
 example : validate (upd 7) [(1, .pad 3 true)] = (.ok, [.G 1, .W 1 (.pad 7 true)]) := by decide
 example : validate (upd 3) [(1, .pad 3 true)] = (.outdated, [.G 1]) := by decide
@@ -663,6 +1586,20 @@ example : runSerial [(1, .pad 3 true)] [upd 7, upd 5] = [(1, .pad 7 true)] := by
 example : validate (txd 2) [(1, .pad 3 true)] = (.kindMismatch, [.G 1]) := by decide
 example : validate (upd 7) [(1, .txs [1])] = (.parse, [.G 1]) := by decide
 example : (validate ⟨false, .reg, 2, .reg 0 .good [⟨2, .v⟩, ⟨3, .u⟩], none⟩ [(2, .reg false [1])]).1 = .regInvalid := by decide
+
+/-- registers: copies that verify are merged, a copy with an unpermitted op is refused as a whole -/
+example : (runSerial [(2, .reg false [1])]
+    [regVec 0 .good [⟨2, .v⟩], regVec 0 .good [⟨3, .u⟩], regVec 0 .good [⟨1, .v⟩, ⟨4, .v⟩]]).get 2 = some (.reg false [1, 2, 4]) := by
+  decide
+example : accOps false .good [⟨3, .u⟩] = [] ∧ accOps false .good [⟨1, .v⟩, ⟨4, .v⟩] = [1, 4] ∧ accOps true .good [⟨1, .v⟩] = [] := by decide
+/-- first arrival: a replicated scratchpad is stored on a key not held, an unpaid client upload is not -/
+example : (deliverSeq [] ⟨false, .pad, 1, .pad 0 4 true, none⟩).get 1 = some (.pad 4 true) := by decide
+example : (deliverSeq [] ⟨true, .pad, 1, .pad 0 4 true, none⟩).get 1 = none := by decide
+/-- the owner's transaction set took the shared key first: every scratchpad is refused from then on -/
+example : (runSerial [] [txd 2, upd 7]).get 1 = some (.txs [2]) := by decide
+/-- over the store: acknowledged ⇒ the register copies are merged; not acknowledged ⇒ overwritten -/
+example : ValidateStore.view (ValidateStore.runOps (ValidateStore.fresh 25) [sReg 0 [1], .run 0, .ack 0, sReg 0 [2]]) 2
+    = some (.reg false [1, 2]) := by decide +kernel
 
 end SafeNet.Props.C07
 
@@ -683,3 +1620,26 @@ end SafeNet.Props.C07
 #print axioms SafeNet.Props.C07.never_regresses_is_false
 #print axioms SafeNet.Props.C07.concurrent_tx_loss_witness
 #print axioms SafeNet.Props.C07.no_transaction_lost_is_false
+#print axioms SafeNet.Props.C07.serial_register_never_lost_partial
+#print axioms SafeNet.Props.C07.register_union_serial
+#print axioms SafeNet.Props.C07.register_order_independent
+#print axioms SafeNet.Props.C07.stale_read_regress_witness
+#print axioms SafeNet.Props.C07.storedCounterNeverDecreasesOverStore_false
+#print axioms SafeNet.Props.C07.stale_read_regress_default_cache_witness
+#print axioms SafeNet.Props.C07.stale_read_tx_loss_witness
+#print axioms SafeNet.Props.C07.noTransactionLostOverStore_false
+#print axioms SafeNet.Props.C07.unacked_register_overwritten_witness
+#print axioms SafeNet.Props.C07.noRegisterOpLostOverStore_false
+#print axioms SafeNet.Props.C07.store_refines_serial_partial
+#print axioms SafeNet.Props.C07.store_scratchpad_never_regresses_partial
+#print axioms SafeNet.Props.C07.store_transactions_never_lost_partial
+#print axioms SafeNet.Props.C07.store_register_never_lost_partial
+#print axioms SafeNet.Props.C07.pad_signature_covers_counter_data_owner
+#print axioms SafeNet.Props.C07.unsigned_data_encoding_witness
+#print axioms SafeNet.Props.C07.everyStoredPadFieldOwnerSigned_false
+#print axioms SafeNet.Props.C07.stored_pad_fields_owner_signed_partial
+#print axioms SafeNet.Props.C07.pad_arrives_applied
+#print axioms SafeNet.Props.C07.stored_scratchpad_valid_and_max_all_paths
+#print axioms SafeNet.Props.C07.first_arrival_scratchpad_valid_and_max
+#print axioms SafeNet.Props.C07.store_scratchpad_never_regresses_cached_partial
+#print axioms SafeNet.Props.C07.store_transactions_never_lost_cached_partial
